@@ -678,7 +678,10 @@ fn collect_changes(
                     continue;
                 }
 
-                let new_entity = marker_added || visibility == Visibility::Gained;
+                // The entity is also new for clients that were authorized after it started replicating.
+                let new_entity = marker_added
+                    || visibility == Visibility::Gained
+                    || ticks.mutation_tick(entity.id()).is_none();
                 if new_entity
                     || updates.changed_entity_added()
                     || removal_buffer.contains_key(&entity.id())
